@@ -162,6 +162,9 @@ func randRead(r *rand.Rand, maxStr int) op {
 	}
 }
 
+var heldErrs []error
+var heldErrTexts []string
+
 func runPacket(c Case, tr *Tracer) {
 	w := packet.NewPacketWriter()
 	defer w.Release()
@@ -183,6 +186,19 @@ func runPacket(c Case, tr *Tracer) {
 				stale = true
 				heldSnap[i] = string(held[i]) // reported once
 			}
+		}
+		// error values handed out earlier (by this reader or by readers before it) are values too: they keep saying what they said
+		for i := range heldErrs {
+			if heldErrs[i].Error() != heldErrTexts[i] {
+				stale = true
+				heldErrTexts[i] = heldErrs[i].Error()
+			}
+		}
+		if er := rd.Error(); er != nil && (len(heldErrs) == 0 || heldErrs[len(heldErrs)-1] != er) {
+			if len(heldErrs) >= 8 {
+				heldErrs, heldErrTexts = heldErrs[1:], heldErrTexts[1:]
+			}
+			heldErrs, heldErrTexts = append(heldErrs, er), append(heldErrTexts, er.Error())
 		}
 		e["stale"] = stale
 		// looking at what is left (Reader.Bytes) is an observation: it takes nothing away (every second read looks)
